@@ -1,14 +1,24 @@
 import Zstd.Model.SeqCodes
+import Zstd.Model.Headers
 import Zstd.Spec.Tables
+import Zstd.Spec.Headers
+import Zstd.Proofs.SeqCodes
+import Zstd.Proofs.Headers
 /-
 C14 — Sequence codes, repeat-offset rules and section headers match the specification.
 
-Property theorems only (helper lemmas live in `Zstd/Proofs/`).  Every table row and range arm
-on the model side comes from `Zstd.Gen.*`, i.e. from the current source text of /repo, so these
-theorems are re-checked by the kernel against what the code says now.
+Property theorems only (helper lemmas live in `Zstd/Proofs/`).  Every table row, range arm,
+shift/mask expression, threshold and guard operator on the model side comes from `Zstd.Gen.*`,
+i.e. from the current source text of /repo, so these theorems are re-checked by the kernel against
+what the code says now.  All statements are for the WHOLE range of the quantifier (no bound, no
+sampling): finite tables are checked by `decide` on the table rows and lifted by induction.
 -/
+set_option linter.unusedSimpArgs false
+set_option linter.unusedVariables false
 namespace Zstd.Props.C14
-open Zstd Zstd.Model
+open Zstd Zstd.Model Zstd.Model.Hdr Zstd.Proofs.SeqCodes
+
+/-! ## Code tables -/
 
 /-- the literal-length decode table of the code is the RFC's table, for every code -/
 theorem ll_dec_eq_rfc : ∀ c, c < 36 → lookupLL c = .ok (Spec.llCodeTable.getD c (0, 0)) := by
@@ -17,5 +27,858 @@ theorem ll_dec_eq_rfc : ∀ c, c < 36 → lookupLL c = .ok (Spec.llCodeTable.get
 /-- the match-length decode table of the code is the RFC's table, for every code -/
 theorem ml_dec_eq_rfc : ∀ c, c < 53 → lookupML c = .ok (Spec.mlCodeTable.getD c (0, 0)) := by
   decide
+
+/-- codes beyond the tables hit the `unreachable!` arm (the callers bound the code first) -/
+theorem ll_dec_out_of_range : ∀ c, c > Gen.maxLiteralLengthCode → ∃ f, lookupLL c = .error f := by
+  intro c hc
+  have h1 : ¬ (c ≤ Gen.llDecIdentHi) := by simp only [Gen.llDecIdentHi, Gen.maxLiteralLengthCode] at *; omega
+  have h2 : ∀ (rows : List (Nat × Nat × Nat)), (∀ r ∈ rows, r.1 ≤ 35) → lookupRow rows c = none := by
+    intro rows
+    induction rows with
+    | nil => intro _; rfl
+    | cons r rest ih =>
+      intro h
+      obtain ⟨a, b, n⟩ := r
+      have ha : a ≤ 35 := h (a, b, n) (by simp)
+      have : ¬ (a = c) := by simp only [Gen.maxLiteralLengthCode] at hc; omega
+      simp only [lookupRow, this, if_false]
+      exact ih (fun r hr => h r (by simp [hr]))
+  simp only [lookupLL, h1, if_false, h2 Gen.llDecRows (by decide)]
+  exact ⟨_, rfl⟩
+
+theorem ml_dec_out_of_range : ∀ c, c > Gen.maxMatchLengthCode → ∃ f, lookupML c = .error f := by
+  intro c hc
+  have h1 : ¬ (c ≤ Gen.mlDecIdentHi) := by simp only [Gen.mlDecIdentHi, Gen.maxMatchLengthCode] at *; omega
+  have h2 : ∀ (rows : List (Nat × Nat × Nat)), (∀ r ∈ rows, r.1 ≤ 52) → lookupRow rows c = none := by
+    intro rows
+    induction rows with
+    | nil => intro _; rfl
+    | cons r rest ih =>
+      intro h
+      obtain ⟨a, b, n⟩ := r
+      have ha : a ≤ 52 := h (a, b, n) (by simp)
+      have : ¬ (a = c) := by simp only [Gen.maxMatchLengthCode] at hc; omega
+      simp only [lookupRow, this, if_false]
+      exact ih (fun r hr => h r (by simp [hr]))
+  simp only [lookupML, h1, if_false, h2 Gen.mlDecRows (by decide)]
+  exact ⟨_, rfl⟩
+
+/-! ## Literal lengths: encoder and decoder are mutual inverses on 0..=131071 -/
+
+/-- the finite check on the extracted rows (20 rows): contiguous, `base = lo`, width `2^bits`,
+codes consecutive, and the DECODER's row for the code is `(lo, bits)` -/
+theorem ll_rows_ok : rowsOk lookupLL Gen.llEncRows (Gen.llEncIdentHi + 1) (Gen.llDecIdentHi + 1) = true := by decide
+theorem ll_rows_end : rowsEnd Gen.llEncRows (Gen.llEncIdentHi + 1) = Gen.llEncUpper := by decide
+theorem ll_ident : ∀ v, v ≤ Gen.llEncIdentHi → encodeLL v = .ok (v, 0, 0) ∧ lookupLL v = .ok (v, 0) := by decide
+
+/-- every literal length 0..=131071 is encoded (no `unreachable!`, no underflow) to a code ≤ 35
+whose decoder row gives the value back; the extra value fits the row's bit count -/
+theorem ll_roundtrip : ∀ v, v ≤ 131071 →
+    ∃ c e b base, encodeLL v = .ok (c, e, b) ∧ c ≤ 35 ∧ lookupLL c = .ok (base, b) ∧ base + e = v ∧ e < 2 ^ b := by
+  intro v hv
+  by_cases h : v ≤ Gen.llEncIdentHi
+  · obtain ⟨h1, h2⟩ := ll_ident v h
+    exact ⟨v, 0, 0, v, h1, by simp only [Gen.llEncIdentHi] at h; omega, h2, by omega, by omega⟩
+  · have hs : Gen.llEncIdentHi + 1 ≤ v := by omega
+    have he : v < rowsEnd Gen.llEncRows (Gen.llEncIdentHi + 1) := by
+      rw [ll_rows_end]; simp only [Gen.llEncUpper]; omega
+    obtain ⟨c, base, b, g1, g2, g3, g4, _, g6⟩ := enc_of_rowsOk lookupLL _ _ _ v ll_rows_ok hs he
+    refine ⟨c, v - base, b, base, ?_, ?_, g2, by omega, g4⟩
+    · have n1 : ¬ (v < Gen.llEncMin) := by simp only [Gen.llEncMin]; omega
+      have n2 : ¬ (Gen.llEncIdentLo ≤ v ∧ v ≤ Gen.llEncIdentHi) := by omega
+      have n3 : ¬ (v ≥ Gen.llEncUpper) := by simp only [Gen.llEncUpper]; omega
+      simp only [encodeLL, encodeWith, n1, n2, n3, if_false, g1]
+    · have : Gen.llEncRows.length = 20 := by decide
+      simp only [Gen.llDecIdentHi] at g6
+      omega
+
+example : encodeLL 131071 = .ok (35, 65535, 16) := by decide
+
+/-- conversely: every code ≤ 35 with every in-range extra value is produced by the encoder from
+the decoded value, with exactly that code, extra value and bit count -/
+theorem ll_enc_dec : ∀ c base bits e, c ≤ 35 → lookupLL c = .ok (base, bits) → e < 2 ^ bits →
+    encodeLL (base + e) = .ok (c, e, bits) := by
+  intro c base bits e hc hl he
+  by_cases h : c ≤ Gen.llEncIdentHi
+  · obtain ⟨h1, h2⟩ := ll_ident c h
+    rw [h2] at hl
+    injection hl with hl
+    injection hl with hb hn
+    subst hb hn
+    have : e = 0 := by simpa using he
+    subst this
+    exact h1
+  · have hs : Gen.llDecIdentHi + 1 ≤ c := by simp only [Gen.llEncIdentHi, Gen.llDecIdentHi] at *; omega
+    have hlen : Gen.llEncRows.length = 20 := by decide
+    have hu : c < Gen.llDecIdentHi + 1 + Gen.llEncRows.length := by rw [hlen]; simp only [Gen.llDecIdentHi]; omega
+    obtain ⟨b, n, g1, g2, g3, g4⟩ := dec_of_rowsOk lookupLL _ _ _ c ll_rows_ok hs hu
+    rw [hl] at g1
+    injection g1 with g1
+    injection g1 with hb hn
+    subst hb hn
+    have v1 : ¬ (base + e < Gen.llEncMin) := by simp only [Gen.llEncMin]; omega
+    have v2 : ¬ (Gen.llEncIdentLo ≤ base + e ∧ base + e ≤ Gen.llEncIdentHi) := by omega
+    have v3 : ¬ (base + e ≥ Gen.llEncUpper) := by rw [ll_rows_end] at g3; omega
+    simp only [encodeLL, encodeWith, v1, v2, v3, if_false, g4 e he]
+
+example : lookupLL 25 = .ok (64, 6) ∧ (63 : Nat) < 2 ^ 6 := by decide
+
+/-- values outside the range reach the `unreachable!` arm: a `Fault`, never a wrong code -/
+theorem ll_out_of_range : ∀ v, v > 131071 → ∃ f, encodeLL v = .error f := by
+  intro v hv
+  have n1 : ¬ (v < Gen.llEncMin) := by simp only [Gen.llEncMin]; omega
+  have n2 : ¬ (Gen.llEncIdentLo ≤ v ∧ v ≤ Gen.llEncIdentHi) := by simp only [Gen.llEncIdentHi]; omega
+  have n3 : v ≥ Gen.llEncUpper := by simp only [Gen.llEncUpper]; omega
+  simp only [encodeLL, encodeWith, n1, n2, n3, if_false, if_true]
+  exact ⟨_, rfl⟩
+
+/-! ## Match lengths: mutual inverses on 3..=131074 -/
+
+theorem ml_rows_ok : rowsOk lookupML Gen.mlEncRows (Gen.mlEncIdentHi + 1) (Gen.mlDecIdentHi + 1) = true := by decide
+theorem ml_rows_end : rowsEnd Gen.mlEncRows (Gen.mlEncIdentHi + 1) = Gen.mlEncUpper := by decide
+theorem ml_ident : ∀ v, v ≤ Gen.mlEncIdentHi → Gen.mlEncMin ≤ v →
+    encodeML v = .ok (v - 3, 0, 0) ∧ lookupML (v - 3) = .ok (v, 0) := by decide
+
+theorem ml_roundtrip : ∀ v, 3 ≤ v → v ≤ 131074 →
+    ∃ c e b base, encodeML v = .ok (c, e, b) ∧ c ≤ 52 ∧ lookupML c = .ok (base, b) ∧ base + e = v ∧ e < 2 ^ b := by
+  intro v hv3 hv
+  by_cases h : v ≤ Gen.mlEncIdentHi
+  · obtain ⟨h1, h2⟩ := ml_ident v h (by simp only [Gen.mlEncMin]; omega)
+    exact ⟨v - 3, 0, 0, v, h1, by simp only [Gen.mlEncIdentHi] at h; omega, h2, by omega, by omega⟩
+  · have hs : Gen.mlEncIdentHi + 1 ≤ v := by omega
+    have he : v < rowsEnd Gen.mlEncRows (Gen.mlEncIdentHi + 1) := by
+      rw [ml_rows_end]; simp only [Gen.mlEncUpper]; omega
+    obtain ⟨c, base, b, g1, g2, g3, g4, _, g6⟩ := enc_of_rowsOk lookupML _ _ _ v ml_rows_ok hs he
+    refine ⟨c, v - base, b, base, ?_, ?_, g2, by omega, g4⟩
+    · have n1 : ¬ (v < Gen.mlEncMin) := by simp only [Gen.mlEncMin]; omega
+      have n2 : ¬ (Gen.mlEncIdentLo ≤ v ∧ v ≤ Gen.mlEncIdentHi) := by omega
+      have n3 : ¬ (v ≥ Gen.mlEncUpper) := by simp only [Gen.mlEncUpper]; omega
+      simp only [encodeML, encodeWith, n1, n2, n3, if_false, g1]
+    · have : Gen.mlEncRows.length = 21 := by decide
+      simp only [Gen.mlDecIdentHi] at g6
+      omega
+
+example : encodeML 131074 = .ok (52, 65535, 16) := by decide
+
+theorem ml_enc_dec : ∀ c base bits e, c ≤ 52 → lookupML c = .ok (base, bits) → e < 2 ^ bits →
+    encodeML (base + e) = .ok (c, e, bits) := by
+  intro c base bits e hc hl he
+  by_cases h : c ≤ Gen.mlDecIdentHi
+  · have h' : c + 3 ≤ Gen.mlEncIdentHi := by simp only [Gen.mlEncIdentHi, Gen.mlDecIdentHi] at *; omega
+    obtain ⟨h1, h2⟩ := ml_ident (c + 3) h' (by simp only [Gen.mlEncMin]; omega)
+    have e3 : c + 3 - 3 = c := by omega
+    rw [e3] at h1 h2
+    rw [h2] at hl
+    injection hl with hl
+    injection hl with hb hn
+    subst hb hn
+    have : e = 0 := by simpa using he
+    subst this
+    exact h1
+  · have hs : Gen.mlDecIdentHi + 1 ≤ c := by omega
+    have hlen : Gen.mlEncRows.length = 21 := by decide
+    have hu : c < Gen.mlDecIdentHi + 1 + Gen.mlEncRows.length := by rw [hlen]; simp only [Gen.mlDecIdentHi]; omega
+    obtain ⟨b, n, g1, g2, g3, g4⟩ := dec_of_rowsOk lookupML _ _ _ c ml_rows_ok hs hu
+    rw [hl] at g1
+    injection g1 with g1
+    injection g1 with hb hn
+    subst hb hn
+    have v1 : ¬ (base + e < Gen.mlEncMin) := by simp only [Gen.mlEncMin, Gen.mlEncIdentHi] at *; omega
+    have v2 : ¬ (Gen.mlEncIdentLo ≤ base + e ∧ base + e ≤ Gen.mlEncIdentHi) := by omega
+    have v3 : ¬ (base + e ≥ Gen.mlEncUpper) := by rw [ml_rows_end] at g3; omega
+    simp only [encodeML, encodeWith, v1, v2, v3, if_false, g4 e he]
+
+example : lookupML 43 = .ok (131, 7) ∧ (127 : Nat) < 2 ^ 7 := by decide
+
+theorem ml_out_of_range : ∀ v, v < 3 ∨ v > 131074 → ∃ f, encodeML v = .error f := by
+  intro v hv
+  by_cases h0 : v < Gen.mlEncMin
+  · simp only [encodeML, encodeWith, h0, if_true]
+    exact ⟨_, rfl⟩
+  · have hv' : v > 131074 := by simp only [Gen.mlEncMin] at h0; omega
+    have n2 : ¬ (Gen.mlEncIdentLo ≤ v ∧ v ≤ Gen.mlEncIdentHi) := by simp only [Gen.mlEncIdentHi]; omega
+    have n3 : v ≥ Gen.mlEncUpper := by simp only [Gen.mlEncUpper]; omega
+    simp only [encodeML, encodeWith, h0, n2, n3, if_false, if_true]
+    exact ⟨_, rfl⟩
+
+/-! ## Offsets: all codes 0..=31, every offset value 1 .. 2^32-1 -/
+
+/-- `encode_offset` yields the RFC's (code, extra bits) split of the offset value, and the
+decoder's `(1 << code) + extra` gives the value back -/
+theorem of_roundtrip : ∀ v c e b, 1 ≤ v → v < 2 ^ 32 → encodeOffset v = .ok (c, e, b) →
+    c ≤ 31 ∧ 2 ^ c + e = v ∧ e < 2 ^ c ∧ b = c ∧ decodeOffsetValue c e = some v ∧
+      Spec.offsetValue c e = v := by
+  intro v c e b h1 h2 h
+  have hv : v ≠ 0 := by omega
+  simp only [encodeOffset, hv, if_false] at h
+  injection h with h
+  injection h with hc h
+  injection h with he hb
+  subst hc
+  have l1 : 2 ^ Nat.log2 v ≤ v := Nat.log2_self_le hv
+  have l2 : v < 2 ^ (Nat.log2 v + 1) := Nat.lt_log2_self
+  have l3 : Nat.log2 v < 32 := (Nat.log2_lt hv).2 h2
+  have hm : v % 2 ^ Nat.log2 v = v - 2 ^ Nat.log2 v := by
+    rw [Nat.pow_succ] at l2
+    rw [Nat.mod_eq_sub_mod l1, Nat.mod_eq_of_lt (by omega)]
+  rw [Nat.and_two_pow_sub_one_eq_mod, hm] at he
+  have hsum : 2 ^ Nat.log2 v + e = v := by omega
+  refine ⟨by omega, hsum, ?_, hb.symm, ?_, hsum⟩
+  · rw [Nat.pow_succ] at l2; omega
+  · have : ¬ (Nat.log2 v > Gen.maxOffsetCode) := by simp only [Gen.maxOffsetCode]; omega
+    simp only [decodeOffsetValue, this, if_false, Nat.shiftLeft_eq, Nat.one_mul, hsum]
+
+example : encodeOffset 4294967295 = .ok (31, 2147483647, 31) := by decide
+
+/-- `encode_offset` never faults on a non-zero value (so `of_roundtrip` is not vacuous) -/
+theorem of_total : ∀ v, 1 ≤ v → ∃ c e b, encodeOffset v = .ok (c, e, b) := by
+  intro v h
+  have hv : v ≠ 0 := by omega
+  simp only [encodeOffset, hv, if_false]
+  exact ⟨_, _, _, rfl⟩
+
+/-- conversely, every code ≤ 31 and extra value below `2^code` is what the encoder produces -/
+theorem of_enc_dec : ∀ c e, c ≤ 31 → e < 2 ^ c → encodeOffset (2 ^ c + e) = .ok (c, e, c) := by
+  intro c e _ he
+  have hp : 0 < 2 ^ c := Nat.two_pow_pos c
+  have hv : 2 ^ c + e ≠ 0 := by omega
+  have hl : Nat.log2 (2 ^ c + e) = c := by
+    rw [Nat.log2_eq_iff hv, Nat.pow_succ]; omega
+  simp only [encodeOffset, hv, if_false, hl, Nat.and_two_pow_sub_one_eq_mod]
+  have : (2 ^ c + e) % 2 ^ c = e := by
+    rw [Nat.add_mod_left, Nat.mod_eq_of_lt he]
+  rw [this]
+
+/-- the decoder's offset value is never 0 (offset value 0 would underflow in the history step) -/
+theorem decodeOffsetValue_pos : ∀ c e v, decodeOffsetValue c e = some v → 1 ≤ v := by
+  intro c e v h
+  simp only [decodeOffsetValue] at h
+  split at h
+  · cases h
+  · injection h with h
+    have : 0 < 1 <<< c := by rw [Nat.shiftLeft_eq, Nat.one_mul]; exact Nat.two_pow_pos c
+    omega
+
+/-- codes above 31 are refused -/
+theorem decodeOffsetValue_limit : ∀ c e, c > 31 → decodeOffsetValue c e = none := by
+  intro c e h
+  have : c > Gen.maxOffsetCode := by simp only [Gen.maxOffsetCode]; omega
+  simp only [decodeOffsetValue, this, if_true]
+
+/-! ## Repeat-offset history -/
+
+/-- `do_offset_history` = RFC 8878 §3.1.1.5 for EVERY offset value ≥ 1, both literal-length
+cases and every history (zeros from a hostile dictionary included) -/
+theorem offsetHistory_eq_rfc : ∀ ov ll (h : Spec.OffHist), 1 ≤ ov →
+    doOffsetHistory ov ll (h.r1, h.r2, h.r3) =
+      .ok ((Spec.repeatOffsets ov (ll == 0) h).1,
+           ((Spec.repeatOffsets ov (ll == 0) h).2.r1, (Spec.repeatOffsets ov (ll == 0) h).2.r2,
+            (Spec.repeatOffsets ov (ll == 0) h).2.r3)) := by
+  intro ov ll h hov
+  have h0 : ov ≠ 0 := by omega
+  by_cases hll : ll = 0
+  · subst hll
+    by_cases h1 : ov = 1
+    · subst h1; simp [doOffsetHistory, Spec.repeatOffsets]
+    · by_cases h2 : ov = 2
+      · subst h2; simp [doOffsetHistory, Spec.repeatOffsets]
+      · by_cases h3 : ov = 3
+        · subst h3; simp [doOffsetHistory, Spec.repeatOffsets]
+        · have h4 : ov > 3 := by omega
+          simp [doOffsetHistory, Spec.repeatOffsets, h0, h1, h2, h3, h4]
+  · have hpos : ll > 0 := by omega
+    by_cases h1 : ov = 1
+    · subst h1; simp [doOffsetHistory, Spec.repeatOffsets, hll, hpos]
+    · by_cases h2 : ov = 2
+      · subst h2; simp [doOffsetHistory, Spec.repeatOffsets, hll, hpos]
+      · by_cases h3 : ov = 3
+        · subst h3; simp [doOffsetHistory, Spec.repeatOffsets, hll, hpos]
+        · have h4 : ov > 3 := by omega
+          simp [doOffsetHistory, Spec.repeatOffsets, h0, h1, h2, h3, h4, hll, hpos]
+
+/-- offset value 0 (which the decoder can never produce, `decodeOffsetValue_pos`) would be an
+arithmetic underflow -/
+theorem offsetHistory_zero_faults : ∀ ll s, ∃ f, doOffsetHistory 0 ll s = .error f := by
+  intro ll s
+  obtain ⟨a, b, c⟩ := s
+  simp only [doOffsetHistory, if_true]
+  exact ⟨_, rfl⟩
+
+/-! ## Number_of_Sequences -/
+
+theorem or128 : ∀ x, x < 128 → x ||| 0x80 = x + 128 := by decide
+
+theorem parse2 (b0 b1 m : Nat) (h1 : 128 ≤ b0) (h2 : b0 ≤ 254) (hn : (b0 - 128) * 256 + b1 ≠ 0) :
+    parseSeqHeader [b0, b1, m] = .ok ((b0 - 128) * 256 + b1, some m, 3) := by
+  have c1 : ¬ b0 = 0 := by omega
+  have c2 : ¬ b0 ≤ 127 := by omega
+  simp only [parseSeqHeader, c1, c2, h2, hn, if_false, if_true, ne_eq, not_false_eq_true]
+
+theorem spec2 (b0 b1 : Nat) (rest : List Nat) (h1 : 128 ≤ b0) (h2 : b0 ≤ 254) :
+    Spec.parseSeqCount (b0 :: b1 :: rest) = some ((b0 - 128) * 256 + b1, 2) := by
+  have c1 : ¬ b0 = 0 := by omega
+  have c2 : ¬ b0 < 128 := by omega
+  have c3 : b0 < 255 := by omega
+  simp only [Spec.parseSeqCount, c1, c2, c3, if_false, if_true]
+
+/-- every count the compressor may be asked to write (1 ..= 0xFFFF + 0x7F00) is written as bytes
+that the decoder reads back to the same count, consuming exactly those bytes plus the modes byte -/
+theorem seqnum_roundtrip : ∀ n m, 1 ≤ n → n ≤ 0xFFFF + 0x7F00 →
+    ∃ bs, encodeSeqnum n = .ok bs ∧ (∀ b ∈ bs, b < 256) ∧
+      parseSeqHeader (bs ++ [m]) = .ok (n, some m, bs.length + 1) ∧
+      Spec.parseSeqCount (bs ++ [m]) = some (n, bs.length) := by
+  intro n m h1 h2
+  by_cases a1 : n ≤ 127
+  · refine ⟨[n % 256], ?_, ?_, ?_, ?_⟩
+    · simp [encodeSeqnum, Gen.seqnumArms, h1, a1]
+    · intro b hb; simp at hb; omega
+    · have e : n % 256 = n := by omega
+      have z : n ≠ 0 := by omega
+      simp [parseSeqHeader, e, z, a1]
+    · have e : n % 256 = n := by omega
+      have z : n ≠ 0 := by omega
+      have l : n < 128 := by omega
+      simp [Spec.parseSeqCount, e, z, l]
+  · by_cases a2 : n ≤ 32511
+    · have hx : n / 256 < 128 := by omega
+      refine ⟨[(n / 256 ||| 0x80) % 256, n % 256], ?_, ?_, ?_, ?_⟩
+      · have : ¬ (1 ≤ n ∧ n ≤ 127) := by omega
+        have : 128 ≤ n := by omega
+        simp [encodeSeqnum, Gen.seqnumArms, a1, a2, *]
+      · intro b hb; simp at hb; omega
+      · rw [or128 _ hx]
+        have e : (n / 256 + 128) % 256 = n / 256 + 128 := by omega
+        rw [e]
+        have g3 : (n / 256 + 128 - 128) * 256 + n % 256 = n := by omega
+        have := parse2 (n / 256 + 128) (n % 256) m (by omega) (by omega) (by omega)
+        simp only [List.cons_append, List.nil_append, List.length_cons, List.length_nil]
+        rw [this, g3]
+      · rw [or128 _ hx]
+        have e : (n / 256 + 128) % 256 = n / 256 + 128 := by omega
+        rw [e]
+        have g3 : (n / 256 + 128 - 128) * 256 + n % 256 = n := by omega
+        have := spec2 (n / 256 + 128) (n % 256) [m] (by omega) (by omega)
+        simp only [List.cons_append, List.nil_append, List.length_cons, List.length_nil]
+        rw [this, g3]
+    · refine ⟨[255, (n - 32512) % 256, (n - 32512) / 256 % 256], ?_, ?_, ?_, ?_⟩
+      · have : ¬ (1 ≤ n ∧ n ≤ 127) := by omega
+        have : ¬ (128 ≤ n ∧ n ≤ 32511) := by omega
+        have : 32512 ≤ n := by omega
+        have : n ≤ 98047 := by omega
+        have : ¬ (n < 32512) := by omega
+        simp [encodeSeqnum, Gen.seqnumArms, Gen.seqnumSub, Gen.seqnumLowFirst, *]
+      · intro b hb; simp at hb; omega
+      · have g : (n - 32512) % 256 + (n - 32512) / 256 % 256 * 256 + 0x7F00 = n := by omega
+        simp [parseSeqHeader, g]
+      · have g : (n - 32512) % 256 + (n - 32512) / 256 % 256 * 256 + 0x7F00 = n := by omega
+        simp [Spec.parseSeqCount, g]
+
+example : encodeSeqnum 0x7F00 = .ok [255, 0, 0] ∧ encodeSeqnum 98047 = .ok [255, 255, 255] := by decide
+
+/-- counts the format cannot express (0 is written elsewhere as a single zero byte; above
+0xFFFF + 0x7F00 there is no encoding) fault instead of producing a wrong header -/
+theorem seqnum_out_of_range : ∀ n, n = 0 ∨ n > 0xFFFF + 0x7F00 → ∃ f, encodeSeqnum n = .error f := by
+  intro n h
+  have : ¬ (1 ≤ n ∧ n ≤ 127) := by omega
+  have : ¬ (128 ≤ n ∧ n ≤ 32511) := by omega
+  have : ¬ (32512 ≤ n ∧ n ≤ 98047) := by omega
+  simp only [encodeSeqnum, Gen.seqnumArms, *, if_false]
+  exact ⟨_, rfl⟩
+
+/-- the decoder's count parser agrees with RFC 8878 §3.1.1.3.2.1 on EVERY byte sequence:
+where the RFC defines a count the parser returns it (consuming the count bytes, plus the modes
+byte when the count is non-zero), and it fails exactly when bytes are missing -/
+theorem seqnum_parse_eq_rfc : ∀ bs : List Nat,
+    match Spec.parseSeqCount bs with
+    | none => ∃ need got, parseSeqHeader bs = .error (.notEnoughBytes need got)
+    | some (n, k) =>
+      if n = 0 then parseSeqHeader bs = .ok (0, none, k)
+      else match bs[k]? with
+        | some m => parseSeqHeader bs = .ok (n, some m, k + 1)
+        | none => ∃ need got, parseSeqHeader bs = .error (.notEnoughBytes need got) := by
+  intro bs
+  match bs with
+  | [] => exact ⟨_, _, rfl⟩
+  | [b0] =>
+    simp only [Spec.parseSeqCount, parseSeqHeader]
+    by_cases h0 : b0 = 0
+    · simp [h0]
+    · by_cases h1 : b0 < 128
+      · have : b0 ≤ 127 := by omega
+        simp [h0, h1, this]
+      · by_cases h2 : b0 < 255
+        · have : ¬ b0 ≤ 127 := by omega
+          have : b0 ≤ 254 := by omega
+          simp [h0, h1, h2, *]
+        · have : ¬ b0 ≤ 127 := by omega
+          have : ¬ b0 ≤ 254 := by omega
+          simp [h0, h1, h2, *]
+  | [b0, b1] =>
+    simp only [Spec.parseSeqCount, parseSeqHeader]
+    by_cases h0 : b0 = 0
+    · simp [h0]
+    · by_cases h1 : b0 < 128
+      · have : b0 ≤ 127 := by omega
+        simp [h0, h1, this]
+      · by_cases h2 : b0 < 255
+        · have : ¬ b0 ≤ 127 := by omega
+          have : b0 ≤ 254 := by omega
+          by_cases hn : (b0 - 128) * 256 + b1 = 0
+          · simp [h0, h1, h2, hn, *]
+          · have hn' : (b0 - 128) * 256 = 0 → ¬ b1 = 0 := by omega
+            simp [h0, h1, h2, hn, *]
+            intro _
+            rw [if_pos hn']
+            exact ⟨_, _, rfl⟩
+        · have : ¬ b0 ≤ 127 := by omega
+          have : ¬ b0 ≤ 254 := by omega
+          simp [h0, h1, h2, *]
+  | [b0, b1, b2] =>
+    simp only [Spec.parseSeqCount, parseSeqHeader]
+    by_cases h0 : b0 = 0
+    · simp [h0]
+    · by_cases h1 : b0 < 128
+      · have : b0 ≤ 127 := by omega
+        simp [h0, h1, this]
+      · by_cases h2 : b0 < 255
+        · have : ¬ b0 ≤ 127 := by omega
+          have : b0 ≤ 254 := by omega
+          by_cases hn : (b0 - 128) * 256 + b1 = 0
+          · simp [h0, h1, h2, hn, *]
+          · simp [h0, h1, h2, hn, *]
+        · have : ¬ b0 ≤ 127 := by omega
+          have : ¬ b0 ≤ 254 := by omega
+          simp [h0, h1, h2, *]
+  | b0 :: b1 :: b2 :: b3 :: rest =>
+    simp only [Spec.parseSeqCount, parseSeqHeader]
+    by_cases h0 : b0 = 0
+    · simp [h0]
+    · by_cases h1 : b0 < 128
+      · have : b0 ≤ 127 := by omega
+        simp [h0, h1, this]
+      · by_cases h2 : b0 < 255
+        · have : ¬ b0 ≤ 127 := by omega
+          have : b0 ≤ 254 := by omega
+          by_cases hn : (b0 - 128) * 256 + b1 = 0
+          · simp [h0, h1, h2, hn, *]
+          · simp [h0, h1, h2, hn, *]
+        · have : ¬ b0 ≤ 127 := by omega
+          have : ¬ b0 ≤ 254 := by omega
+          simp [h0, h1, h2, *]
+
+/-! ## Block header -/
+
+open Zstd.Proofs.Headers in
+/-- every three-byte pattern is parsed to exactly the RFC's fields (Last_Block bit 0, Block_Type
+bits 1-2, Block_Size bits 3-23); the reserved type and sizes above 128 KiB are refused; the
+derived sizes are those of the block type -/
+theorem blockHeader_parse_eq_rfc : ∀ b0 b1 b2 rest, b0 < 256 → b1 < 256 → b2 < 256 →
+    readBlockHeader (b0 :: b1 :: b2 :: rest) =
+      (let h := Spec.parseBlockHeader b0 b1 b2
+       if h.btype = 3 then .error .reserved
+       else if h.size > Spec.blockMaxSize then .error (.tooLarge h.size)
+       else .ok ({ last := h.last, btype := h.btype,
+                   decompressedSize := if h.btype = 2 then 0 else h.size,
+                   contentSize := if h.btype = 1 then 1 else h.size }, 3)) :=
+  fun b0 b1 b2 rest h0 h1 h2 => readBlockHeader_eq b0 b1 b2 rest h0 h1 h2
+
+/-- fewer than three bytes: a read error, never a header -/
+theorem blockHeader_short : ∀ src : List Nat, src.length < 3 → readBlockHeader src = .error (.readError src.length) := by
+  intro src h
+  match src with
+  | [] => rfl
+  | [_] => rfl
+  | [_, _] => rfl
+  | _ :: _ :: _ :: _ => simp at h; omega
+
+/-- sizes the format forbids are refused: Block_Size > 128 KiB or the reserved type ⇒ error
+(guard operator from the source: `Gen.blockSizeTooLarge`) -/
+theorem block_limits : ∀ b0 b1 b2 rest, b0 < 256 → b1 < 256 → b2 < 256 →
+    ((Spec.parseBlockHeader b0 b1 b2).size > 131072 ∨ (Spec.parseBlockHeader b0 b1 b2).btype = 3 ↔
+      ∃ e, readBlockHeader (b0 :: b1 :: b2 :: rest) = .error e) := by
+  intro b0 b1 b2 rest h0 h1 h2
+  rw [blockHeader_parse_eq_rfc b0 b1 b2 rest h0 h1 h2]
+  simp only [Spec.blockMaxSize]
+  by_cases h3 : (Spec.parseBlockHeader b0 b1 b2).btype = 3
+  · simp [h3]
+  · by_cases hs : (Spec.parseBlockHeader b0 b1 b2).size > 131072
+    · simp [h3, hs]
+    · simp [h3, hs]
+
+example : (Spec.parseBlockHeader 0x08 0x00 0x10).size = 131073 := by decide
+
+open Zstd.Proofs.Headers in
+/-- every header the encoder can be asked to write (any last flag, Raw/RLE/Compressed, any size the
+21-bit field can hold) is read back to the same values — or refused when the size exceeds
+128 KiB, never silently altered -/
+theorem blockHeader_roundtrip : ∀ (last : Bool) t size rest, t ≤ 2 → size < 2 ^ 21 →
+    ∃ bs, serializeBlockHeader last t size = .ok bs ∧ bs.length = 3 ∧ (∀ b ∈ bs, b < 256) ∧
+      readBlockHeader (bs ++ rest) =
+        if size > 131072 then .error (.tooLarge size)
+        else .ok ({ last := last, btype := t, decompressedSize := if t = 2 then 0 else size,
+                    contentSize := if t = 1 then 1 else size }, 3) := by
+  intro last t size rest ht hs
+  have hl : last.toNat < 2 := by cases last <;> decide
+  refine ⟨_, serializeBlockHeader_eq last t size ht hs, rfl, ?_, ?_⟩
+  · intro b hb; simp at hb; omega
+  · generalize hV : size * 8 + t * 2 + last.toNat = V
+    have hV24 : V < 2 ^ 24 := by omega
+    simp only [List.cons_append, List.nil_append]
+    rw [blockHeader_parse_eq_rfc _ _ _ rest (by omega) (by omega) (by omega)]
+    have e : V % 256 + 256 * (V / 256 % 256) + 65536 * (V / 65536 % 256) = V := by omega
+    simp only [Spec.parseBlockHeader, e, Spec.blockMaxSize]
+    have e1 : V / 2 % 4 = t := by omega
+    have e2 : V / 8 = size := by omega
+    have e3 : (V % 2 = 1) = (last = true) := by
+      cases last <;> simp [Bool.toNat] at hV ⊢ <;> omega
+    have n3 : ¬ t = 3 := by omega
+    simp only [e1, e2, e3, n3, if_false, decide_eq_true_eq, Bool.decide_eq_true]
+
+/-- the reserved type cannot be written: the encoder panics (a `Fault`) instead -/
+theorem blockHeader_reserved_faults : ∀ (last : Bool) size, ∃ f, serializeBlockHeader last 3 size = .error f := by
+  intro last size
+  exact ⟨_, rfl⟩
+
+/-! ## Literals section header -/
+
+open Zstd.Proofs.Headers in
+/-- every byte pattern (all 4 types × all size formats, any number of bytes) is parsed to exactly
+the RFC's fields; too few bytes give `NotEnoughBytes {have, need}` with the RFC's header size;
+`num_streams` is left as it was for Raw/RLE sections (the code does not reset it) -/
+theorem literalsHeader_parse_eq_rfc : ∀ (self : LitSection) (raw : List Nat), (∀ b ∈ raw, b < 256) →
+    parseLitHeader self raw =
+      match raw with
+      | [] => .error (.getBits 2 0)
+      | r0 :: _ =>
+        match Spec.Hdr.parseLitHeader raw with
+        | none => .error (.notEnoughBytes raw.length (Spec.Hdr.litHeaderSize r0))
+        | some h => .ok ({ ty := h.ltype, regen := h.regen, comp := h.comp,
+                           streams := if h.ltype < 2 then self.streams else h.streams }, h.size) :=
+  fun self raw hb => by
+    cases raw with
+    | nil => exact parseLitHeader_eq self [] hb
+    | cons r0 tail => exact parseLitHeader_eq self (r0 :: tail) hb
+
+/-- the parser never panics (no index out of range, no `panic!` arm) on any byte sequence -/
+theorem literalsHeader_no_fault : ∀ (self : LitSection) (raw : List Nat) f, (∀ b ∈ raw, b < 256) →
+    parseLitHeader self raw ≠ .error (.fault f) := by
+  intro self raw f hb
+  rw [literalsHeader_parse_eq_rfc self raw hb]
+  match raw with
+  | [] => intro h; cases h
+  | r0 :: tail =>
+    simp only []
+    cases Spec.Hdr.parseLitHeader (r0 :: tail) <;> (intro h; cases h)
+
+open Zstd.Proofs.Headers in
+/-- raw literals: every count below 2^20 (the compressor writes at most 128 KiB) is written as a
+3-byte header that reads back as (Raw, count) -/
+theorem literalsHeader_roundtrip_raw : ∀ n (self : LitSection) rest, n < 2 ^ 20 → (∀ b ∈ rest, b < 256) →
+    ∃ bs, rawLiteralsHeader n = .ok bs ∧
+      parseLitHeader self (bs ++ rest) = .ok ({ ty := 0, regen := n, comp := none, streams := self.streams }, 3) ∧
+      Spec.Hdr.parseLitHeader (bs ++ rest) = some ⟨0, n, none, none, 3⟩ := by
+  intro n self rest hn hr
+  obtain ⟨f1, f2, f3⟩ := spec_fields_raw n hn
+  have hs : Spec.Hdr.parseLitHeader (leBytes 3 (12 + 16 * n) ++ rest) = some ⟨0, n, none, none, 3⟩ := by
+    rw [spec_parse_leBytes 3 _ rest (by decide) f1 f2, f3]
+  refine ⟨_, rawLiteralsHeader_eq n hn, ?_, hs⟩
+  rw [literalsHeader_parse_eq_rfc self _ (bytes_append_lt 3 _ rest hr)]
+  rw [show leBytes 3 (12 + 16 * n) ++ rest = ((12 + 16 * n) % 256) :: (leBytes 2 ((12 + 16 * n) / 256) ++ rest) from rfl] at hs ⊢
+  simp only [hs]
+  rfl
+
+open Zstd.Proofs.Headers in
+/-- Huffman-compressed and treeless literals: for every literal count the compressor accepts
+(< 262144; the size format is the one the source's thresholds select) and every compressed size
+that fits the format's field, the header reads back to the same (type, regenerated size,
+compressed size) with the stream count the format implies -/
+theorem literalsHeader_roundtrip : ∀ (newTable : Bool) regen comp sf sb (self : LitSection) rest,
+    litSizeFormat Gen.litSizeFormatArms regen = some (sf, sb) → comp < 2 ^ sb → (∀ b ∈ rest, b < 256) →
+    ∃ bs, compressedLiteralsHeader newTable regen comp = .ok bs ∧ bs.length = (4 + 2 * sb) / 8 ∧
+      parseLitHeader self (bs ++ rest) =
+        .ok ({ ty := if newTable then 2 else 3, regen := regen, comp := some comp,
+               streams := some (if regen < 6 then 1 else 4) }, bs.length) := by
+  intro newTable regen comp sf sb self rest harm hc hr
+  obtain ⟨a1, a2, a3, a4⟩ := size_arms_cases regen sf sb harm
+  have hsf : sf < 4 := by omega
+  have hsb : sb = 10 ∨ sb = 14 ∨ sb = 18 := by omega
+  have hT : (if newTable then 2 else 3) = 2 ∨ (if newTable then 2 else 3) = 3 := by cases newTable <;> simp
+  obtain ⟨f1, f2, f3⟩ := spec_fields (if newTable then 2 else 3) sf sb regen comp hT a4 a1 hc
+  have hk1 : 1 ≤ (4 + 2 * sb) / 8 := by omega
+  have hs := spec_parse_leBytes _ _ rest hk1 f1 f2
+  rw [f3] at hs
+  refine ⟨_, compressedLiteralsHeader_eq newTable regen comp sf sb harm hsf hsb a1 hc, leBytes_length _ _, ?_⟩
+  rw [literalsHeader_parse_eq_rfc self _ (bytes_append_lt _ _ rest hr)]
+  obtain ⟨j, hj⟩ : ∃ j, (4 + 2 * sb) / 8 = j + 1 := ⟨(4 + 2 * sb) / 8 - 1, by omega⟩
+  rw [hj] at hs ⊢
+  rw [show ∀ V, leBytes (j + 1) V ++ rest = (V % 256) :: (leBytes j (V / 256) ++ rest) from fun _ => rfl] at hs ⊢
+  simp only [hs, leBytes_length]
+  have nT : ¬ ((if newTable then 2 else 3) < 2) := by cases newTable <;> simp
+  have hst : (if sf = 0 then 1 else 4) = (if regen < 6 then 1 else 4) := by
+    by_cases h6 : regen < 6
+    · simp [h6, a3.2 h6]
+    · have : ¬ sf = 0 := fun h => h6 (a3.1 h)
+      simp [h6, this]
+  simp only [nT, if_false, hst, List.length_cons, leBytes_length, hj]
+
+/-- any header that survives `compress_literals`' own fallback (`total_len >= literals.len()` ⇒ raw)
+has a compressed size below the literal count, which always fits the field -/
+theorem literalsHeader_kept_fits : ∀ regen comp sf sb,
+    litSizeFormat Gen.litSizeFormatArms regen = some (sf, sb) → comp < regen → comp < 2 ^ sb := by
+  intro regen comp sf sb h hc
+  have := (Zstd.Proofs.Headers.size_arms_cases regen sf sb h).1
+  omega
+
+/-- the size-format thresholds of the source are those at which the RFC's fields run out
+(10-bit sizes below 1024, 14-bit below 16384, 18-bit below 262144; single stream below 6) -/
+theorem literals_thresholds : ∀ regen, regen < 262144 →
+    litSizeFormat Gen.litSizeFormatArms regen =
+      some (if regen < 6 then (0, 10) else if regen < 1024 then (1, 10) else if regen < 16384 then (2, 14) else (3, 18)) :=
+  Zstd.Proofs.Headers.size_arms
+
+/-- 262144 literals or more: `unimplemented!` (a `Fault`), not a wrong header -/
+theorem literals_too_many : ∀ (newTable : Bool) regen comp, 262144 ≤ regen →
+    ∃ f, compressedLiteralsHeader newTable regen comp = .error f := by
+  intro newTable regen comp h
+  simp only [compressedLiteralsHeader, Zstd.Proofs.Headers.size_arms_none regen h]
+  exact ⟨_, rfl⟩
+
+/-! ## Frame header -/
+
+open Zstd.Proofs.Headers in
+/-- after the magic number, every descriptor byte and every following byte sequence is parsed to
+exactly the RFC's fields: Window_Descriptor present iff not single-segment, Dictionary_ID field
+of 0/1/2/4 bytes, Frame_Content_Size field of 0/1/2/4/8 bytes with the +256 rule for the 2-byte
+form; a dictionary id of 0 is reported as "none"; the window the decoder will require is the RFC's
+(Window_Size, or Frame_Content_Size for single-segment frames); missing bytes give a read error -/
+theorem frameHeader_parse_eq_rfc : ∀ d rest, d < 256 → (∀ b ∈ rest, b < 256) →
+    match Spec.Hdr.parseFrameHeader (d :: rest) with
+    | none => ∃ e, (e = .windowRead ∨ e = .dictIdRead ∨ e = .fcsRead) ∧
+        readFrameHeader (leBytes 4 Gen.magicNum ++ d :: rest) = .error e
+    | some h => ∃ hd, readFrameHeader (leBytes 4 Gen.magicNum ++ d :: rest) = .ok (hd, 4 + h.size, rest.drop (h.size - 1)) ∧
+        hd.desc = d ∧ Gen.fdChecksum d = h.desc.checksum ∧ Gen.fdSingleSegment d = h.desc.singleSegment ∧
+        hd.dictId = (match h.dictId with | some 0 => none | x => x) ∧
+        hd.fcs = h.fcs.getD 0 ∧
+        hd.windowSize = .ok h.requiredWindow := by
+  intro d rest hd hr
+  rw [readFrameHeader_eq d rest hd]
+  have hs := fd_sizes d hd
+  have hsingle := fd_single d hd
+  have hck := fd_checksum d hd
+  simp only [Spec.Hdr.parseFrameHeader]
+  generalize hnd : Spec.didFieldSize (Spec.parseFrameDesc d) = nd at *
+  generalize hnf : Spec.fcsFieldSize (Spec.parseFrameDesc d) = nf at *
+  -- a single-segment frame always has a Frame_Content_Size field
+  have hnf0 : (Spec.parseFrameDesc d).singleSegment = true → nf ≠ 0 := by
+    intro h; rw [← hnf]; unfold Spec.fcsFieldSize; rw [h]; split <;> simp
+  generalize hnw : (if (Spec.parseFrameDesc d).singleSegment = true then 0 else 1) = nw at *
+  by_cases h1 : rest.length < nw
+  · have : rest.length < nw + nd + nf := by omega
+    simp only [h1, this, if_true]
+    exact ⟨_, Or.inl rfl, rfl⟩
+  · by_cases h2 : rest.length < nw + nd
+    · have : rest.length < nw + nd + nf := by omega
+      simp only [h1, h2, this, if_true, if_false]
+      exact ⟨_, Or.inr (Or.inl rfl), rfl⟩
+    · by_cases h3 : rest.length < nw + nd + nf
+      · simp only [h1, h2, h3, if_true, if_false]
+        exact ⟨_, Or.inr (Or.inr rfl), rfl⟩
+      · simp only [h1, h2, h3, if_false]
+        refine ⟨{ desc := d, windowDescriptor := leNat (List.take nw rest),
+                  dictId := if nd ≠ 0 ∧ leNat (List.take nd (List.drop nw rest)) ≠ 0 then
+                      some (leNat (List.take nd (List.drop nw rest))) else none,
+                  fcs := if nf = 2 then leNat (List.take nf (List.drop (nw + nd) rest)) + 256
+                      else leNat (List.take nf (List.drop (nw + nd) rest)) }, ?_, ?_, hck, hsingle, ?_, ?_, ?_⟩
+        · refine congrArg Except.ok (Prod.ext rfl (Prod.ext ?_ ?_))
+          · show 5 + nw + nd + nf = 4 + (1 + nw + nd + nf); omega
+          · show List.drop (nw + nd + nf) rest = List.drop (1 + nw + nd + nf - 1) rest
+            congr 1; omega
+        · rfl
+        · by_cases hn0 : nd = 0
+          · simp [hn0]
+          · by_cases hz : leNat (List.take nd (List.drop nw rest)) = 0
+            · simp [hn0, hz]
+            · simp only [hn0, hz, ne_eq, not_false_eq_true, and_self, if_true, if_false]
+              split
+              · rename_i heq; injection heq with heq; exact absurd heq hz
+              · rfl
+        · by_cases hn0 : nf = 0
+          · have : ¬ nf = 2 := by omega
+            simp [hn0, this, leNat]
+          · simp only [hn0, if_false, Option.getD_some]
+        · simp only [DecFrameHeader.windowSize, hsingle, Spec.Hdr.FrameHeader.requiredWindow]
+          cases hss : (Spec.parseFrameDesc d).singleSegment
+          · simp only [Bool.false_eq_true, if_false]
+            rw [hss] at hnw
+            simp only [Bool.false_eq_true, if_false] at hnw
+            subst hnw
+            match rest, h1, hr with
+            | w :: tl, _, hr =>
+              have hw : w < 256 := hr w (by simp)
+              simp only [List.take_succ_cons, List.take_zero, leNat, Nat.mul_zero, Nat.add_zero]
+              exact window_check w hw
+          · have := hnf0 hss
+            simp only [if_true, this, if_false, Option.getD_some]
+
+example : Spec.Hdr.parseFrameHeader [0x20, 5] = some ⟨⟨0, true, false, 0⟩, none, none, some 5, 2⟩ := by decide
+
+/-- other magic numbers: the skippable range is reported as a skip frame with its length, anything
+else as a bad magic number -/
+theorem frameHeader_magic : ∀ (m : Nat) rest, m < 2 ^ 32 → m ≠ Gen.magicNum →
+    readFrameHeader (leBytes 4 m ++ rest) =
+      if 0x184D2A50 ≤ m ∧ m ≤ 0x184D2A5F then
+        (if rest.length < 4 then .error .descRead else .error (.skipFrame m (leNat (rest.take 4))))
+      else .error (.badMagic m) := by
+  intro m rest hm hne
+  have h1 : readExact 4 (leBytes 4 m ++ rest) = some (leBytes 4 m, rest) := by
+    simp only [readExact, List.length_append, leBytes_length]
+    have : ¬ (4 + rest.length < 4) := by omega
+    simp only [this, if_false]
+    rw [List.take_append_of_le_length (by simp), List.take_of_length_le (by simp), List.drop_append_of_le_length (by simp),
+      List.drop_of_length_le (by simp)]
+    rfl
+  have h2 : leNat (leBytes 4 m) = m := by rw [leNat_leBytes, Nat.mod_eq_of_lt (by omega)]
+  simp only [readFrameHeader, h1, h2, Gen.skipMagicLo, Gen.skipMagicHi]
+  by_cases hs : 407710288 ≤ m ∧ m ≤ 407710303
+  · simp only [hs, and_self, if_true, readExact]
+    by_cases hl : rest.length < 4 <;> simp [hl]
+  · simp only [hs, if_false, hne, ne_eq, not_false_eq_true, if_true]
+
+open Zstd.Proofs.Headers in
+/-- all 256 window descriptors: `FrameHeader::window_size` = RFC `windowBase + windowAdd` -/
+theorem window_of_descriptor : ∀ wd (h : DecFrameHeader), wd < 256 → Gen.fdSingleSegment h.desc = false →
+    h.windowDescriptor = wd → h.windowSize = .ok (Spec.windowSize wd) := by
+  intro wd h hwd hs he
+  simp only [DecFrameHeader.windowSize, hs, Bool.false_eq_true, if_false, he]
+  exact window_check wd hwd
+
+/-- single-segment frames: the window is the frame content size, whatever its value (the code
+applies NO minimum or maximum here; content sizes below 1 KiB, including 0, are accepted) -/
+theorem window_single_segment : ∀ (h : DecFrameHeader), Gen.fdSingleSegment h.desc = true → h.windowSize = .ok h.fcs := by
+  intro h hs
+  simp only [DecFrameHeader.windowSize, hs, if_true]
+
+/-- the legal range: every descriptor-encoded window lies in [1 KiB, (1<<41) + 7·(1<<38)], the
+extracted limits are the RFC's, and the range check (operators from the source text) accepts
+exactly that range for EVERY value -/
+theorem window_legal_range :
+    (∀ wd, wd < 256 → Spec.windowMin ≤ Spec.windowSize wd ∧ Spec.windowSize wd ≤ Spec.windowMax) ∧
+    Gen.minWindowSize = Spec.windowMin ∧ Gen.maxWindowSize = Spec.windowMax ∧
+    (∀ w, checkWindowRange w =
+      if w < Spec.windowMin then .error (.tooSmall w) else if w > Spec.windowMax then .error (.tooBig w) else .ok w) := by
+  refine ⟨Zstd.Proofs.Headers.window_range, by decide, by decide, ?_⟩
+  intro w
+  simp only [checkWindowRange, Gen.windowMinOk, Gen.windowMaxOk, Gen.minWindowSize, Gen.maxWindowSize,
+    Spec.windowMin, Spec.windowMax, decide_eq_true_eq]
+  by_cases h1 : w < 1024
+  · have : ¬ w ≥ 1024 := by omega
+    simp [h1, this]
+  · have h1' : w ≥ 1024 := by omega
+    by_cases h2 : w > 2 ^ 41 + 7 * 2 ^ 38
+    · have : ¬ w ≤ 4123168604160 := by omega
+      simp [h1, h1', h2, this]
+    · have : w ≤ 4123168604160 := by omega
+      simp [h1, h1', h2, this]
+
+example : Spec.windowSize 0xFF = Spec.windowMax ∧ Spec.windowSize 0 = Spec.windowMin := by decide
+
+open Zstd.Proofs.Headers in
+/-- every header `FrameCompressor::compress` can write (no content size, no dictionary, checksum
+flag = the `hash` feature, window from `Matcher::window_size()`) for every requested window up to
+2^41: six bytes, read back with the same flags, and the DECLARED window is legal, at least the
+requested one, and less than twice it (above the 2 KiB floor) -/
+theorem frameHeader_roundtrip : ∀ (hash : Bool) w rest, w ≤ 2 ^ 41 →
+    ∃ bs hd W, (compressFrameHeader hash w).serialize = .ok bs ∧ bs.length = 6 ∧
+      readFrameHeader (bs ++ rest) = .ok (hd, 6, rest) ∧
+      hd.dictId = none ∧ hd.fcs = 0 ∧ Gen.fdChecksum hd.desc = hash ∧ Gen.fdSingleSegment hd.desc = false ∧
+      Gen.fdFcsFlag hd.desc = 0 ∧ Gen.fdDictIdFlag hd.desc = 0 ∧
+      hd.windowSize = .ok W ∧ w ≤ W ∧ Spec.windowMin ≤ W ∧ W ≤ Spec.windowMax ∧ (2048 < w → W < 2 * w) := by
+  intro hash w rest hw
+  have hl : winLog w ≤ 41 := winLog_le w 41 hw
+  obtain ⟨s1, s2⟩ := winLog_spec w
+  generalize hE : (if winLog w > 10 then winLog w else 11) - 10 = E
+  have hE31 : E ≤ 31 := by subst hE; split <;> omega
+  have hser : (compressFrameHeader hash w).serialize = .ok (leBytes 4 Gen.magicNum ++ [4 * hash.toNat] ++ [8 * E] ++ [] ++ []) := by
+    have hwb : (compressFrameHeader hash w).windowBytes = .ok [8 * E] := by
+      simp only [EncFrameHeader.windowBytes, compressFrameHeader, encWindowDescriptor_eq w hw, hE]
+    simp only [EncFrameHeader.serialize, compress_descriptor, hwb]
+    rfl
+  have hd4 : 4 * hash.toNat < 256 := by cases hash <;> decide
+  have hread := readFrameHeader_eq (4 * hash.toNat) (8 * E :: rest) hd4
+  have hdesc : Spec.parseFrameDesc (4 * hash.toNat) = ⟨0, false, hash, 0⟩ := by cases hash <;> decide
+  simp only [hdesc, Spec.didFieldSize, Spec.fcsFieldSize, Bool.false_eq_true, if_false, List.length_cons] at hread
+  have c1 : ¬ (rest.length + 1 < 1) := by omega
+  have c2 : ¬ (rest.length + 1 < 1 + 0) := by omega
+  have c3 : ¬ (rest.length + 1 < 1 + 0 + 0) := by omega
+  simp only [c1, c2, c3, if_false, List.take_zero, leNat, ne_eq, not_true_eq_false, false_and, List.take_succ_cons,
+    Nat.mul_zero, Nat.add_zero, List.drop_succ_cons, List.drop_zero, Nat.reduceAdd, Nat.reduceEqDiff] at hread
+  have hW : Gen.windowSizeExpr (8 * E) = 2 ^ (10 + E) := windowSizeExpr_of_exp E hE31
+  have hpow : (2:Nat) ^ (10 + E) ≤ 2 ^ 41 := Nat.pow_le_pow_right (by decide) (by omega)
+  have hpow2 : (2:Nat) ^ 10 ≤ 2 ^ (10 + E) := Nat.pow_le_pow_right (by decide) (by omega)
+  refine ⟨_, { desc := 4 * hash.toNat, windowDescriptor := 8 * E, dictId := none, fcs := 0 }, 2 ^ (10 + E), hser,
+    by simp [leBytes_length], ?_, rfl, rfl, ?_, ?_, ?_, ?_, ?_, ?_, ?_, ?_, ?_⟩
+  · rw [← hread]; simp only [List.append_assoc, List.cons_append, List.nil_append, List.append_nil]
+  · show Gen.fdChecksum (4 * hash.toNat) = hash
+    cases hash <;> decide
+  · show Gen.fdSingleSegment (4 * hash.toNat) = false
+    cases hash <;> decide
+  · show Gen.fdFcsFlag (4 * hash.toNat) = 0
+    cases hash <;> decide
+  · show Gen.fdDictIdFlag (4 * hash.toNat) = 0
+    cases hash <;> decide
+  · have hs : Gen.fdSingleSegment (4 * hash.toNat) = false := by cases hash <;> decide
+    simp only [DecFrameHeader.windowSize, hs, Bool.false_eq_true, if_false, hW, checkWindowRange, Gen.windowMinOk,
+      Gen.windowMaxOk, Gen.minWindowSize, Gen.maxWindowSize, decide_eq_true_eq]
+    have a1 : (2:Nat) ^ (10 + E) ≥ 1024 := by omega
+    have a2 : (2:Nat) ^ (10 + E) ≤ 4123168604160 := by omega
+    simp only [a1, a2, if_true]
+  · subst hE
+    by_cases h10 : winLog w > 10
+    · simp only [h10, if_true]
+      have : 10 + (winLog w - 10) = winLog w := by omega
+      rw [this]; exact s1
+    · simp only [h10, if_false]
+      have : winLog w ≤ 10 := by omega
+      have : (2:Nat) ^ winLog w ≤ 2 ^ 10 := Nat.pow_le_pow_right (by decide) this
+      have : (2:Nat) ^ (10 + (11 - 10)) = 2048 := by decide
+      omega
+  · simp only [Spec.windowMin]; omega
+  · simp only [Spec.windowMax]; omega
+  · intro hbig
+    subst hE
+    have h10 : winLog w > 10 := by
+      apply Classical.byContradiction
+      intro hc
+      have : winLog w ≤ 10 := by omega
+      have : (2:Nat) ^ winLog w ≤ 2 ^ 10 := Nat.pow_le_pow_right (by decide) this
+      omega
+    simp only [h10, if_true]
+    have : 10 + (winLog w - 10) = winLog w := by omega
+    rw [this]
+    exact s2 (by omega)
+
+example : (compressFrameHeader true 131072).serialize = .ok [40, 181, 47, 253, 4, 56] := by decide
+
+/-- observation (not reachable with the built-in matcher, whose window is 128 KiB): a user
+`Matcher` reporting a window above 2^41 gets a header that DECLARES LESS than requested — the
+exponent is shifted out of the byte (`exponent << 3` on a `u8`): 2^41+1 is declared as 1 KiB -/
+theorem frameHeader_window_above_2p41_wraps :
+    encWindowDescriptor (2 ^ 41 + 1) = .ok 0 ∧ Spec.windowSize 0 = 1024 := by decide
+
+/-- observation: an 8-byte frame content size cannot be written — `descriptor` has the arm
+`3 => 8` where `8 => 3` is meant, so a size ≥ 2^32 panics (the struct is crate-private and
+`compress` never sets a content size) -/
+theorem frameHeader_fcs8_faults :
+    (EncFrameHeader.serialize ⟨some (2 ^ 32), true, false, none, none⟩).toOption = none ∧
+    (EncFrameHeader.serialize ⟨some (2 ^ 32 - 1), true, false, none, none⟩).toOption =
+      some [40, 181, 47, 253, 0xA0, 255, 255, 255, 255] := by decide
+
+/-- observation: with `single_segment = false` a content size below 256 is written as one byte
+although the descriptor then announces no Frame_Content_Size field: the decoder reads content
+size 0 (same unreachable struct) -/
+theorem frameHeader_fcs1_not_announced :
+    EncFrameHeader.serialize { fcs := some 7, singleSegment := false, checksum := false, dictId := none, windowSize := some 1024 }
+      = .ok [40, 181, 47, 253, 0, 8, 7] ∧
+    (readFrameHeader [40, 181, 47, 253, 0, 8, 7]).toOption.map (fun r => (r.1.fcs, r.2.1)) = some (0, 6) := by decide
 
 end Zstd.Props.C14
